@@ -320,8 +320,8 @@ type Stmt struct {
 	// Normalize: the handler counts the parameters of what it makes of the text (comments removed, say), not
 	// of the raw text: wire.ParseParameters(Normalize(query)) is what it declares
 	Normalize func(string) string
-	EchoQuery   bool // the statement fails with an error that quotes its query text - the string the parser was handed, kept without copying
-	Ops         []Op
+	EchoQuery bool // the statement fails with an error that quotes its query text - the string the parser was handed, kept without copying
+	Ops       []Op
 }
 
 type Prog struct {
